@@ -150,3 +150,37 @@ def _domain_is_forced(n):
 
 
 DOMAIN = {F + 'FastHierarchyAnalyzer._get_selection_choice_is_forced': _domain_is_forced}
+
+
+# ---- FastHierarchyAnalyzer._get_n_opts: the declared option count of every selection-choice variable (C14) ------------
+CONTRACTS[F + 'FastHierarchyAnalyzer._get_n_opts'] = dict(
+    properties=['C14'],
+    types={'self': 'Ref[FastHierarchyAnalyzer]'},
+    returns='List[Int]',
+    locals={'sel_choice_opt_nodes': 'Dict[Ref,List[Ref]]'},
+    requires={'every-choice-has-an-option-list': f'forall(i, 0, len({NODES}), {NODES}[i] in self.selection_choice_option_nodes)'},
+    ensures={
+        'one-count-per-choice-in-choice-order': ('property', f'len(result) == len({NODES})'),
+        'count-is-the-number-of-options-of-that-choice': ('property', f'forall(i, 0, len({NODES}), result[i] == len(self.selection_choice_option_nodes[{NODES}[i]]))'),
+    },
+    modifies=[],
+)
+
+
+def _domain_n_opts(n):
+    from bounded.corpus import corpus
+    from bounded import gen
+    from adsg_core.optimization.hierarchy.fast import FastHierarchyAnalyzer
+    made = 0
+    for desc in corpus(['sel', 'con', 'forced'], 'quick'):
+        if made >= n:
+            break
+        try:
+            an = FastHierarchyAnalyzer(gen.Built(desc).dsg)
+        except Exception:  # noqa
+            continue
+        made += 1
+        yield ({'self': an}, (lambda an=an: an._get_n_opts()), {}, f'FastHierarchyAnalyzer(corpus member {desc.label})._get_n_opts()')
+
+
+DOMAIN[F + 'FastHierarchyAnalyzer._get_n_opts'] = _domain_n_opts
